@@ -13,10 +13,16 @@ exception / other error / TApplicationException.
     end-to-end rpc_call on the same arguments and scripted outcome, and -- binary AND compact protocols -- the
     model's server on the request bytes that travelled and the model's client on the reply bytes that travelled
     (the model runs over the codec of the session: bin_codec / compact_codec of Model/GenCall.v; JSON sessions are
-    judged at the level of values only).
+    judged at the level of values only);
+  * bursts (the same calls again, several in flight at once through the one generated client): direct oracle = each
+    caller got what the same call got alone; correspondence = Judge/JGenCallConc.v over Model/GenCallConc.v (registry
+    model x call model): on the frames that travelled during a round the hypotheses of c03_concurrent_calls_independent
+    (pairwise distinct op ids, replies delivered when alone, nothing but server replies to these calls arrived) and its
+    conclusion (each caller's outcome, handler log and own request / reply bytes are the model's for the call made alone).
 """
 import collections
 import struct
+import threading
 import time
 
 import lab
@@ -705,6 +711,9 @@ def _run_program(ctx, prog, lb, plan, stats, judge_cases, judge_meta, burst_case
             if problems:
                 sig = None
                 txt = bytes.fromhex((o.get("client") or {}).get("msg", "") or "")
+                if proto == "json" and m["oneway"]:
+                    # a oneway caller does not see the error: its text is in the EXCEPTION frame the server sent
+                    txt += b"".join(bytes.fromhex(x) for x in o.get("replies") or [])
                 if proto == "json" and THRIFT_JSON_SPLIT.search(txt):
                     # Apache Thrift's TSimpleJSONProtocol reads NaN / Infinity / -Infinity with one bufio Read: a token
                     # that straddles the reader's 4096-byte buffer comes back short (known finding, outside /repo)
@@ -947,9 +956,29 @@ def run(ctx, br):
         nprog += 1
         if len(ctx.violations) - before > 30:
             break
+    # the two judges, the burst cases in two halves: three coqc pipelines side by side
     t_j = __import__("time").time()
-    verdicts = vlib.run_judge(ctx.rundir, "JGenCall", "judge", judge_cases, shard=500000) if judge_cases else []
-    stats["ms_judge"] += int(1000 * (__import__("time").time() - t_j))
+    half = (len(burst_cases) + 1) // 2
+    jobs = [("JGenCall", judge_cases, "j"), ("JGenCallConc", burst_cases[:half], "jb"),
+            ("JGenCallConc", burst_cases[half:], "jc")]
+    jres = [None] * len(jobs)
+
+    def _judge(k):
+        mod, cs, nm = jobs[k]
+        try:
+            jres[k] = vlib.run_judge(ctx.rundir, mod, "judge", cs, shard=500000, name=nm) if cs else []
+        except Exception as ex:  # noqa
+            jres[k] = ex
+    ths = [threading.Thread(target=_judge, args=(k,)) for k in range(len(jobs))]
+    for th in ths:
+        th.start()
+    for th in ths:
+        th.join()
+    for r in jres:
+        if isinstance(r, Exception):
+            raise r
+    verdicts = jres[0]
+    stats["ms_judges"] += int(1000 * (__import__("time").time() - t_j))
     mism = 0
     tagbits = collections.Counter()
     validated = 0
@@ -969,9 +998,7 @@ def run(ctx, br):
                 if v & b:
                     tagbits[TAGS[b]] += 1
     # --- bursts on the composed model
-    t_j = __import__("time").time()
-    bverdicts = vlib.run_judge(ctx.rundir, "JGenCallConc", "judge", burst_cases, shard=500000, name="jb") if burst_cases else []
-    stats["ms_judge_burst"] += int(1000 * (__import__("time").time() - t_j))
+    bverdicts = jres[1] + jres[2]
     BURST_FAIL = {-1001: "op ids of the calls in flight are not pairwise distinct",
                   -1002: "a call's reply would not be delivered to it when made alone (delivered_aloneb)",
                   -1003: "a reply frame travelled that is not the server model's reply to one of the calls in flight (net_okb)",
